@@ -132,6 +132,93 @@ DESC_KP = {'dA': 'kpA', 'dB': 'kpB'}
 ITEMSIZE = {'float32': 4, 'float64': 8, 'uint8': 1}
 
 
+def _gen_features(rng, images, malformed=False):
+    feats = {}
+    for kind in KINDS:
+        feats[kind] = {}
+        for ft, (dt, ds) in FEAT_SPECS[kind].items():
+            if rng.random() < 0.45:
+                continue
+            tar = rng.random() < 0.5
+            files = {}
+            unit = ITEMSIZE[dt] * ds
+            if kind == 'matches':
+                pairs = [(a, b) for a in images for b in images if a < b]
+                for a, b in rng.sample(pairs, min(len(pairs), rng.randint(0, 3))):
+                    files[a + '|' + b] = _rand_bytes(rng, unit * rng.randint(0, 3))
+            else:
+                for im in images:
+                    if rng.random() < 0.7:
+                        files[im] = _rand_bytes(rng, unit * rng.randint(0, 3))
+            if malformed and files and rng.random() < 0.5:
+                k = rng.choice(sorted(files))
+                files[k] = _rand_bytes(rng, unit * rng.randint(0, 2) + rng.randint(1, unit - 1)) if unit > 1 else files[k]
+            feats[kind][ft] = {'tar': tar, 'dtype': dt, 'dsize': ds, 'files': files}
+    return feats
+
+
+def _gen_remerge(rng, malformed=False):
+    """A merge of feature / match files through the library functions into a destination that is not empty:
+    an earlier merge of an earlier state of the same inputs (files recomputed with the same size, another size,
+    unchanged, or not there yet) and / or stale files written under destination names (same size, truncated
+    = interrupted copy, longer, empty)."""
+    cls, dirs, ext, sep = _tables()
+    n = rng.choice([1, 1, 2, 2, 3])
+    ins = []
+    for i in range(n):
+        images = sorted(rng.sample(IMAGES, rng.randint(1, len(IMAGES))))
+        feats = _gen_features(rng, images, malformed)
+        if i == 0 and not any(d['files'] for v in feats.values() for d in v.values()):
+            feats['global_features']['gA'] = {'tar': False, 'dtype': 'float32', 'dsize': 5,
+                                              'files': {images[0]: _rand_bytes(rng, 20)}}
+        if rng.random() < 0.6:
+            for v in feats.values():
+                for d in v.values():
+                    d['tar'] = False         # the directory route is the one that copies files
+        ins.append({'pts': None, 'obs': None, 'images': images, 'features': feats})
+    how = rng.choice(['prior', 'prior', 'stale', 'both'])
+    prior = None
+    if how in ('prior', 'both'):
+        prior = []
+        for x in ins:
+            feats = {}
+            for kind, v in x['features'].items():
+                feats[kind] = {}
+                for ft, d in v.items():
+                    unit = 24 if kind == 'matches' else ITEMSIZE[d['dtype']] * d['dsize']
+                    files = {}
+                    for name, hx in d['files'].items():
+                        r = rng.random()
+                        if r < 0.55:
+                            files[name] = _rand_bytes(rng, len(hx) // 2)                     # recomputed, same size
+                        elif r < 0.7:
+                            files[name] = hx                                                # unchanged
+                        elif r < 0.88:
+                            files[name] = _rand_bytes(rng, unit * rng.randint(0, 4))        # other number of rows
+                    feats[kind][ft] = {'tar': rng.random() < 0.3, 'dtype': d['dtype'], 'dsize': d['dsize'], 'files': files}
+            prior.append({'pts': None, 'obs': None, 'images': x['images'], 'features': feats})
+    stale = {}
+    if how in ('stale', 'both'):
+        for x in ins:
+            for kind, v in x['features'].items():
+                for ft, d in v.items():
+                    for name, hx in d['files'].items():
+                        if rng.random() < 0.5:
+                            continue
+                        rel = dirs[kind] + '/' + ft + '/' + _relname(kind, name, ext, sep)
+                        size = len(hx) // 2
+                        r = rng.random()
+                        if r < 0.5:
+                            stale[rel] = _rand_bytes(rng, size)                 # same size, other bytes
+                        elif r < 0.7:
+                            stale[rel] = hx[:2 * rng.randint(0, size)]          # interrupted copy
+                        elif r < 0.85:
+                            stale[rel] = hx + _rand_bytes(rng, rng.randint(1, 9))
+                        else:
+                            stale[rel] = ''
+    return {'mode': 'remerge', 'inputs': ins, 'prior': prior, 'stale': stale}
+
+
 def _gen_tool(rng, malformed=False):
     n = rng.choice([1, 2, 2, 3, 3, 4])
     base_w = rng.choice([3, 6])
@@ -149,27 +236,7 @@ def _gen_tool(rng, malformed=False):
     ins = []
     for i in range(n):
         images = sorted(rng.sample(IMAGES, rng.randint(1, len(IMAGES))))
-        feats = {}
-        for kind in KINDS:
-            feats[kind] = {}
-            for ft, (dt, ds) in FEAT_SPECS[kind].items():
-                if rng.random() < 0.45:
-                    continue
-                tar = rng.random() < 0.5
-                files = {}
-                unit = ITEMSIZE[dt] * ds
-                if kind == 'matches':
-                    pairs = [(a, b) for a in images for b in images if a < b]
-                    for a, b in rng.sample(pairs, min(len(pairs), rng.randint(0, 3))):
-                        files[a + '|' + b] = _rand_bytes(rng, unit * rng.randint(0, 3))
-                else:
-                    for im in images:
-                        if rng.random() < 0.7:
-                            files[im] = _rand_bytes(rng, unit * rng.randint(0, 3))
-                if malformed and files and rng.random() < 0.5:
-                    k = rng.choice(sorted(files))
-                    files[k] = _rand_bytes(rng, unit * rng.randint(0, 2) + rng.randint(1, unit - 1)) if unit > 1 else files[k]
-                feats[kind][ft] = {'tar': tar, 'dtype': dt, 'dsize': ds, 'files': files}
+        feats = _gen_features(rng, images, malformed)
         r = rng.random()
         if r < 0.15:
             pts = None
@@ -211,6 +278,8 @@ def gen_cases(rng, tier):
         cases.append(_gen_lib_random(rng))
     for i in range(120 if tier == 'quick' else 1200):
         cases.append(_gen_tool(rng, malformed=(i % 10 == 9)))
+    for i in range(80 if tier == 'quick' else 800):
+        cases.append(_gen_remerge(rng, malformed=(i % 16 == 15)))
     return cases
 
 
@@ -436,12 +505,98 @@ def _run_tool(case, ctx):
     return res
 
 
+def _case_files(x):
+    """the feature / match files of one input, as the case defines them: path, storage, bytes per row, bytes"""
+    cls, dirs, ext, sep = _tables()
+    files = []
+    for kind in KINDS:
+        for t in sorted(x['features'][kind]):
+            d = x['features'][kind][t]
+            unit = 24 if kind == 'matches' else ITEMSIZE[d['dtype']] * d['dsize']
+            for name in sorted(d['files']):
+                files.append({'path': dirs[kind] + '/' + t + '/' + _relname(kind, name, ext, sep), 'tar': bool(d['tar']),
+                              'unit': unit, 'data': d['files'][name]})
+    return files
+
+
+def _api_merge(inputs, roots, out):
+    """merge_*_collections called as the merge drivers call them, on objects built from the case"""
+    import numpy as np
+    import kapture
+    import kapture.io.csv as kcsv
+    from kapture.algo import merge_reconstruction as mr
+    handlers = [kcsv.get_all_tar_handlers(r) for r in roots]
+    try:
+        def coll(kind, mk):
+            res = []
+            for x in inputs:
+                f = x['features'][kind]
+                res.append({t: mk(t, d) for t, d in f.items()} if f else None)
+            return res
+        kp = coll('keypoints', lambda t, d: kapture.Keypoints(t, getattr(np, d['dtype']), d['dsize'], list(d['files'])))
+        de = coll('descriptors', lambda t, d: kapture.Descriptors(t, getattr(np, d['dtype']), d['dsize'], DESC_KP[t], 'L2',
+                                                                    list(d['files'])))
+        gf = coll('global_features', lambda t, d: kapture.GlobalFeatures(t, getattr(np, d['dtype']), d['dsize'], 'L2',
+                                                                          list(d['files'])))
+        ma = coll('matches', lambda t, d: kapture.Matches([tuple(n.split('|')) for n in d['files']]))
+        for lst, fn in ((kp, mr.merge_keypoints_collections), (de, mr.merge_descriptors_collections),
+                        (gf, mr.merge_global_features_collections), (ma, mr.merge_matches_collections)):
+            if any(c is not None for c in lst):
+                fn(lst, roots, out, handlers)
+    finally:
+        for h in handlers:
+            h.close()
+
+
+def _run_remerge(case, ctx):
+    import logging
+    base = os.path.join(ctx['tmp'], 'c11')
+    shutil.rmtree(base, ignore_errors=True)
+    os.makedirs(base)
+    logging.getLogger('kapture').setLevel(logging.ERROR)
+    out = os.path.join(base, 'out')
+    os.makedirs(out)
+    res = {}
+    if case['prior']:
+        proots = []
+        for i, x in enumerate(case['prior']):
+            r = os.path.join(base, f'prior{i}')
+            _build_dataset(r, x)
+            proots.append(r)
+        try:
+            _api_merge(case['prior'], proots, out)
+        except Exception as e:                      # an earlier merge that failed half-way is a history too
+            res['prior_exc'] = f'{type(e).__name__}: {e}'[:120]
+    for rel, hx in case['stale'].items():
+        fp = os.path.join(out, rel)
+        os.makedirs(os.path.dirname(fp), exist_ok=True)
+        with open(fp, 'wb') as fh:
+            fh.write(bytes.fromhex(hx))
+    roots = []
+    for i, x in enumerate(case['inputs']):
+        r = os.path.join(base, f'in{i}')
+        _build_dataset(r, x)
+        roots.append(r)
+    res['dest'] = _read_output(out)['files']
+    res['files'] = [_case_files(x) for x in case['inputs']]
+    try:
+        _api_merge(case['inputs'], roots, out)
+        res['out'] = _read_output(out)['files']
+    except Exception as e:
+        res['exc'] = f'{type(e).__name__}: {e}'[:200]
+        res['exc_type'] = type(e).__name__
+    shutil.rmtree(base, ignore_errors=True)
+    return res
+
+
 def run_impl(case, ctx):
     import warnings
     with warnings.catch_warnings():
         warnings.simplefilter('ignore')      # numpy: "loadtxt: input contained no data" for empty points3d.txt
         if case['mode'] == 'lib':
             return _run_lib(case)
+        if case['mode'] == 'remerge':
+            return _run_remerge(case, ctx)
         return _run_tool(case, ctx)
 
 
@@ -528,6 +683,23 @@ def oracle(case, obs):
         r = r or _check_obs('merge_points3d_and_observations', inputs, obs['po']['obs'], obs['po']['rows'])
         r = r or _check_points('merge_points3d', inputs, obs['p'])
         return r
+    if case['mode'] == 'remerge':
+        # merged file bytes == bytes of a source of that name, whatever the destination held before the merge
+        entries = [e for es in obs['files'] for e in es]
+        if 'exc' in obs:
+            if any(e['tar'] and (len(e['data']) // 2) % e['unit'] != 0 for e in entries):
+                return None
+            return f're-merge: the merge functions raised {obs["exc_type"]} on well-formed inputs'
+        src = {}
+        for e in entries:
+            src.setdefault(e['path'], []).append(e['data'])
+        got = dict((p, b) for p, b in obs['out'])
+        for p in src:
+            if p not in got:
+                return 're-merge: a feature or match file of an input is missing from the merged dataset'
+            if got[p] not in src[p]:
+                return 're-merge: a merged feature or match file is not byte-identical to its source'
+        return None
     # tool
     inputs = obs['loaded']
     skip = case['skip']
@@ -607,6 +779,13 @@ def encode(case, obs):
                                                                   _c_tuples(po['obs']))
         c_p = 'None' if 'exc' in p else '(Some %s)' % kv.cpair(kv.cz(p['w']), kv.clist(_c_row(r) for r in p['rows']))
         return '(CaseLib %s %s %s)' % (_c_inputs(obs['inputs']), c_po, c_p)
+    if case['mode'] == 'remerge':
+        files = kv.clist(kv.clist('(mkF %s %s %s %s)' % (kv.cstr(e['path']), kv.cbool(e['tar']), kv.cz(e['unit']),
+                                                          kv.cstr(bytes.fromhex(e['data']))) for e in es) for es in obs['files'])
+        dest = kv.clist(kv.cpair(kv.cstr(p), kv.cstr(bytes.fromhex(b))) for p, b in obs['dest'])
+        c_o = 'None' if 'exc' in obs else '(Some %s)' % kv.clist(kv.cpair(kv.cstr(p), kv.cstr(bytes.fromhex(b)))
+                                                                 for p, b in obs['out'])
+        return '(CaseRemerge %s %s %s)' % (dest, files, c_o)
     inputs = obs['loaded']
     files = kv.clist(kv.clist('(mkF %s %s %s %s)' % (kv.cstr(e['path']), kv.cbool(e['tar']), kv.cz(e['unit']),
                                                       kv.cstr(bytes.fromhex(e['data']))) for e in x['files']) for x in inputs)
@@ -623,7 +802,18 @@ def encode(case, obs):
 
 
 # ------------------------------------------------------------------------------------------ evidence
+def _overwrites(obs):
+    """destination names that the merge must replace: present before, with bytes that are not those of a source"""
+    src = {}
+    for es in obs['files']:
+        for e in es:
+            src.setdefault(e['path'], []).append(e['data'])
+    return [(p, b) for p, b in obs['dest'] if p in src and b not in src[p]]
+
+
 def nontrivial(case, obs):
+    if case['mode'] == 'remerge':
+        return bool(_overwrites(obs))
     inputs = obs['inputs'] if case['mode'] == 'lib' else obs['loaded']
     with_pts = [x for x in inputs if x['pts'] is not None and x['pts']['rows']]
     if case['mode'] == 'tool':
@@ -632,6 +822,15 @@ def nontrivial(case, obs):
 
 
 def classify(case, obs):
+    if case['mode'] == 'remerge':
+        src = {e['path']: e for es in obs['files'] for e in es}
+        ow = _overwrites(obs)
+        same = sum(1 for p, b in ow if len(b) == len(src[p]['data']))
+        route = {(src[p]['tar']) for p, _ in ow}
+        hist = ('prior+stale' if case['prior'] and case['stale'] else 'prior' if case['prior'] else 'stale')
+        return (f'remerge/n={len(case["inputs"])}/{hist}/same-size-stale={min(same, 3)}/other-stale={min(len(ow) - same, 3)}/'
+                f'{"tar+dir" if len(route) == 2 else "tar" if route == {True} else "dir" if route == {False} else "none"}/'
+                f'{"raise" if "exc" in obs else "ok"}')
     inputs = obs['inputs'] if case['mode'] == 'lib' else obs['loaded']
     ws = sorted({x['pts']['w'] for x in inputs if x['pts'] is not None and x['pts']['rows']})
     shape = 'mixed' if len(ws) > 1 else ('Nx%d' % ws[0] if ws else 'nopoints')
@@ -647,6 +846,12 @@ def classify(case, obs):
 
 
 def describe(case, obs):
+    if case['mode'] == 'remerge':
+        return {'mode': 'remerge', 'inputs': [{k: {t: ('tar' if d['tar'] else 'dir', len(d['files'])) for t, d in v.items()}
+                                               for k, v in x['features'].items() if v} for x in case['inputs']],
+                'prior_merge': bool(case['prior']), 'stale_files': len(case['stale']),
+                'destination_before': len(obs['dest']), 'must_be_replaced': len(_overwrites(obs)),
+                'observed': obs.get('exc') or f'{len(obs["out"])} files'}
     if case['mode'] == 'lib':
         return {'mode': 'lib', 'inputs': [{'pts': None if x['pts'] is None else f'{len(x["pts"]["rows"])}x{x["pts"]["w"]}',
                                            'obs': None if x['obs'] is None else len(x['obs'])} for x in case['inputs']],
@@ -663,6 +868,42 @@ def describe(case, obs):
 
 
 def shrink(case):
+    if case['mode'] == 'remerge':
+        if case['prior'] and case['stale']:
+            for k in ('prior', 'stale'):
+                c = copy.deepcopy(case)
+                c[k] = None if k == 'prior' else {}
+                yield c
+        if len(case['inputs']) > 1:
+            for i in range(len(case['inputs'])):
+                c = copy.deepcopy(case)
+                del c['inputs'][i]
+                if c['prior']:
+                    del c['prior'][i]
+                yield c
+        for i, x in enumerate(case['inputs']):
+            for kind in KINDS:
+                for t in list(x['features'][kind]):
+                    c = copy.deepcopy(case)
+                    del c['inputs'][i]['features'][kind][t]
+                    if c['prior']:
+                        c['prior'][i]['features'][kind].pop(t, None)
+                    yield c
+        for i, x in enumerate(case['inputs']):
+            for kind in KINDS:
+                for t, d in x['features'][kind].items():
+                    if len(d['files']) > 1:
+                        for name in list(d['files']):
+                            c = copy.deepcopy(case)
+                            del c['inputs'][i]['features'][kind][t]['files'][name]
+                            if c['prior'] and t in c['prior'][i]['features'][kind]:
+                                c['prior'][i]['features'][kind][t]['files'].pop(name, None)
+                            yield c
+        for rel in list(case['stale']):
+            c = copy.deepcopy(case)
+            del c['stale'][rel]
+            yield c
+        return
     ins = case['inputs']
     if len(ins) > 1:
         for i in range(len(ins)):
